@@ -2,6 +2,7 @@ import PgBifrost.Proofs.BatcherFaithful
 import PgBifrost.Proofs.BatcherAccounting
 import PgBifrost.Proofs.BatcherSeenOrder
 import PgBifrost.Proofs.SysExample
+import PgBifrost.Model.Front
 /-!
 # C04 — every filtered-in change reaches the sink exactly once, intact (batcher layer)
 
@@ -320,5 +321,71 @@ example : (Sys.run Sys.exCfg Sys.exActs).sinkAccepted.Perm
   (sys_exactly_once Sys.exCfg.bcfg false Sys.exActs Sys.exEnv (Or.inl rfl) (by decide) (by decide) (by decide)).1
 
 end sys
+
+/-! ## from the replication client to the sink: filter ▸ partitioner ▸ marshaller ▸ batcher ▸ workers -/
+section front
+open PgBifrost.Front
+variable {K : Kind} {big bad : Msg → Bool} {dom : Msg → Prop}
+
+/-- **C04 end to end (`pipeline_exactly_once`).** Let `ws` be the stream the replication client forwarded and let
+the batcher have been fed what the stages in front of it make of `ws` (`Front.front`: the filter drops exactly
+the data messages whose table is not permitted; partitioner and marshaller stamp and render one message at a
+time, in order). At quiescence (queues empty, workers idle, no record left in an open batch):
+
+1. the changes in the sink are, as a multiset of change identities, exactly the received row changes that pass
+   the table filter (minus the rows dropped as too big / invalid by the batch kind): each exactly once, none
+   else — BEGIN and COMMIT markers never become records;
+2. every record in the sink is the rendering (`Front.stamp`) of one received change that passes the filter, and
+   carries that change's own LSN, transaction, delivery key and partition key: nothing merged or re-attributed. -/
+theorem pipeline_exactly_once (fc : Front.Cfg) (ws : List Recv) (bcfg : Batcher.Cfg) (redeliver : Bool) (acts : List Sys.Act)
+    (hfed : Sys.fedMsgs acts = front fc ws)
+    (hE : Sys.Env redeliver K big bad dom acts) (hs : Sys.Sched redeliver ⟨K, bcfg⟩ acts)
+    (hq : (Sys.run ⟨K, bcfg⟩ acts).queue = []) (hh : (Sys.run ⟨K, bcfg⟩ acts).held = [])
+    (hopen : ∀ p ∈ (Sys.run ⟨K, bcfg⟩ acts).bat.openB, p.2.payload = []) :
+    ((Sys.run ⟨K, bcfg⟩ acts).sinkAccepted.map (·.id)).Perm
+      ((ws.filter fun r => r.op == .data && Front.passes fc r && !big (stamp fc r) && !bad (stamp fc r)).map (·.id)) ∧
+    ∀ m ∈ (Sys.run ⟨K, bcfg⟩ acts).sinkAccepted, ∃ r ∈ ws, m = stamp fc r ∧ r.op = .data ∧ Front.passes fc r = true := by
+  have h1 := (sys_exactly_once bcfg redeliver acts hE hs hq hh hopen).1
+  rw [hfed] at h1
+  have hfm : (front fc ws).filter (fun m => m.op == .data && !big m && !bad m) =
+      (ws.filter fun r => r.op == .data && Front.passes fc r && !big (stamp fc r) && !bad (stamp fc r)).map (stamp fc) := by
+    unfold front
+    rw [List.filter_map, List.filter_filter]
+    congr 1
+    apply List.filter_congr
+    intro r _
+    simp only [Function.comp, stamp]
+    cases r.op <;> cases Front.passes fc r <;> simp
+  constructor
+  · have := h1.map (·.id)
+    rw [hfm, List.map_map] at this
+    exact this
+  · intro m hm
+    have hm' := h1.mem_iff.mp hm
+    rw [hfm, List.mem_map] at hm'
+    obtain ⟨r, hr, rfl⟩ := hm'
+    rw [List.mem_filter] at hr
+    obtain ⟨hrw, hc⟩ := hr
+    simp only [Bool.and_eq_true, beq_iff_eq] at hc
+    exact ⟨r, hrw, rfl, hc.1.1.1, hc.1.1.2⟩
+
+/-! not vacuous: the client forwards the two transactions of `Sys.ex1Acts`' input plus one row of a blacklisted
+table; partition method `tablename` (tables with the one-byte names 1 and 2). The front stages turn that into
+exactly the messages `Sys.ex1Acts` feeds; the sink ends up with the four permitted rows. -/
+private def fcEx : Front.Cfg :=
+  { filter := ⟨false, false, ["public.audit"]⟩, mt := fun _ _ => false, method := .tableName, buckets := 1 }
+private def rB (t k lsn id : Nat) : Recv := ⟨.begin, "", [], [], t, k, lsn, id, 0, 0⟩
+private def rC (t k lsn id : Nat) : Recv := ⟨.commit, "", [], [], t, k, lsn, id, 0, 0⟩
+private def rD (rel : String) (rb : UInt8) (t k lsn id : Nat) : Recv := ⟨.data, rel, [rb], [], t, k, lsn, id, 10, 0⟩
+private def wsEx : List Recv :=
+  [rB 7 70 100 0, rD "public.a" 1 7 70 101 1, rD "public.audit" 9 7 70 0 99, rD "public.b" 2 7 70 102 2,
+   rD "public.a" 1 7 70 103 3, rD "public.a" 1 7 70 104 4, rC 7 70 105 5]
+example : Sys.fedMsgs Sys.ex1Acts = front fcEx wsEx := by decide
+set_option maxRecDepth 100000 in
+example : ((Sys.run Sys.ex1Cfg Sys.ex1Acts).sinkAccepted.map (·.id)).Perm [1, 2, 3, 4] :=
+  (pipeline_exactly_once fcEx wsEx Sys.ex1Cfg.bcfg false Sys.ex1Acts (by decide) Sys.ex1Env (Or.inl rfl)
+    (by decide) (by decide) (by decide)).1
+
+end front
 
 end PgBifrost.Props.C04
